@@ -26,6 +26,7 @@ EPIN = os.environ.get('VH_EPIN', '')            # '0'/'1' per leading entry of P
 VARIANTS = os.environ.get('VH_VARIANTS', '1') == '1'   # 0: predecessor lists always ascending and always lists
 NA = int(os.environ.get('VH_NA', '2'))          # insert_workflow / add_operator: tasks of A (1..3)
 NB = int(os.environ.get('VH_NB', '2'))          # tasks of B (1..3)
+CPIN = os.environ.get('VH_CPIN', '')            # exec_context: '0'/'1'/'x' per task: `takes context` pinned
 APIN = os.environ.get('VH_APIN', '')            # '0'/'1' pins for A's edges a01, a02, a12 (leading ones)
 PM = int(os.environ.get('VH_PM', '0'))          # insert_workflow predecessors: 0 None, 1 one Task, 2 list
 SHAPE = os.environ.get('VH_SHAPE', 'A')
@@ -331,7 +332,8 @@ def exec_context(e01: bool, e02: bool, e12: bool, e03: bool, e13: bool, e23: boo
     _fresh()
     E = (e01, e02, e12, e03, e13, e23, e04, e14, e24, e34)
     s = (s0, s1, s2, s3, s4)
-    c = (c0, c1, c2, c3, c4)
+    c = tuple((CPIN[i] == '1') if (i < len(CPIN) and CPIN[i] in '01') else x
+              for i, x in enumerate((c0, c1, c2, c3, c4)))
     calls = []
     nodes = list(range(N))
     if len(_sinks(nodes, _edges(E))) != 1:
